@@ -272,9 +272,99 @@ func ruleHTMLTable(r *core.Reporter) {
 				case rq.tag == "link" && (isConfigAtom(a, "CaptureAlternatePages") || isRelAlternate(a)):
 				case rq.tag == "link" && a.V != nil && isAttrExists(a.V, "rel"):
 				case rq.attr == "" || rq.tag == "[style]":
-					// regexp match loops and the reviewed non-URL filters of CSS values
+					// regexp match loops and the non-URL filters of CSS values: those name specific literals
+					// (`strings.HasPrefix(m, "--font")`, `strings.Contains(m, "%")`), never a class of first
+					// characters — "starts with a digit" also rejects 2x/hero.png, 1.gif, 2024/03/banner.jpg
+					literal := false
+					if c, isC := a.V.(*ssa.Call); isC && ir.IsCallTo(c, "strings.HasPrefix", "strings.HasSuffix", "strings.Contains", "strings.EqualFold") && len(c.Call.Args) == 2 {
+						if lit, okc := ir.ConstString(c.Call.Args[1]); okc && lit != "" {
+							literal = true
+						}
+					}
+					isLen := func(v ssa.Value) bool {
+						c, ok := v.(*ssa.Call)
+						return ok && ir.CallName(c.Common()) == "builtin.len"
+					}
+					isCharOf := func(v ssa.Value) bool {
+						switch x := ir.Strip(v).(type) {
+						case *ssa.Lookup:
+							_, isMap := x.X.Type().Underlying().(*types.Map)
+							return !isMap
+						case *ssa.Index:
+							return true
+						}
+						return false
+					}
+					switch {
+					case literal:
+					case a.V == nil && (isLen(a.X) || isLen(a.Y)):
+					case a.V == nil && a.Op == token.EQL && !isCharOf(a.X) && !isCharOf(a.Y):
+						// whole-string comparisons, nil checks
+					case a.V == nil && (isCharOf(a.X) || isCharOf(a.Y)):
+						extra = "a character-class test on the matched value: " + describeAtom(a)
+					case a.V != nil:
+						if _, isC := a.V.(*ssa.Call); isC {
+							extra = "a predicate on the matched value that is not a literal prefix/substring test: " + describeAtom(a)
+						}
+					}
 				default:
 					extra = describeAtom(a)
+				}
+			}
+		}
+		if extra == "" && (rq.attr == "" || rq.tag == "[style]") {
+			// the same for conditions that gate the sink only in combination (an inlined `m != "" && m[0] >= '0' && …`)
+			var foreign []ir.IfInfo
+			for _, ii := range ir.Ifs(found.closure) {
+				a := ii.Atom
+				charOf := func(v ssa.Value) bool {
+					switch x := ir.Strip(v).(type) {
+					case *ssa.Lookup:
+						_, isMap := x.X.Type().Underlying().(*types.Map)
+						return !isMap
+					case *ssa.Index:
+						return true
+					}
+					return false
+				}
+				if a.V == nil && (charOf(a.X) || charOf(a.Y)) {
+					foreign = append(foreign, ii)
+				}
+			}
+			if len(foreign) > 0 && len(foreign) <= 6 {
+				// the tested string is taken to be non-empty (the emptiness test that protects the index is not the point)
+				type edge struct {
+					b *ssa.BasicBlock
+					s int
+				}
+				empty := map[edge]bool{}
+				for _, ii := range ir.Ifs(found.closure) {
+					a := ii.Atom
+					if a.V == nil && a.Op == token.EQL {
+						for _, side := range []ssa.Value{a.X, a.Y} {
+							if str, ok := ir.ConstString(side); ok && str == "" {
+								empty[edge{ii.If.Block(), ii.EdgeWhen(true)}] = true
+							}
+						}
+					}
+				}
+				for mask := 0; mask < 1<<len(foreign) && extra == ""; mask++ {
+					cut := map[edge]bool{}
+					for k := range empty {
+						cut[k] = true
+					}
+					for i, ii := range foreign {
+						truth := mask&(1<<i) != 0
+						cut[edge{ii.If.Block(), ii.EdgeWhen(!truth)}] = true
+					}
+					res := ir.Reach([]ir.Pt{ir.Entry(found.closure)}, ir.Opts{EdgeOK: func(b *ssa.BasicBlock, s int) bool { return !cut[edge{b, s}] }})
+					if !res.Reached[sink] {
+						var parts []string
+						for i, ii := range foreign {
+							parts = append(parts, fmt.Sprintf("%s=%v", describeAtom(ii.Atom), mask&(1<<i) != 0))
+						}
+						extra = "a character-class test on the matched value (" + strings.Join(parts, ", ") + ")"
+					}
 				}
 			}
 		}
